@@ -5,7 +5,11 @@
 //     validateRootPermissions = "root only"), and whether a state write precedes the gate call;
 //   - handlers: every Msg handler (method `(ctx, *…MsgX) (*…MsgXResponse, error)`) of every module
 //     under x/ with the gate it reaches through calls inside its own package (depth <= 3);
-//   - the textual normal forms of the three gate functions themselves.
+//   - the textual normal forms of the three gate functions themselves;
+//   - wasm_routes: every control-flow path of app/wasmext from SDKMessageHandler.DispatchMsg (the
+//     wasmkeeper.Messenger entry point) to the Msg-service router lookup, with the switch / type-switch
+//     branches it takes and whether the signer guard ("every signer of the dispatched message is the
+//     dispatching contract") lies on it — for leaf and WRAPPER messages (MsgExec, …) alike.
 package main
 
 import (
@@ -31,9 +35,76 @@ var gateFuncs = map[string]string{"CheckPermissions": "GateSudoers"}
 var gateForms = map[string]string{
 	"$0==$1": "GateRoot", // (sender, root string)
 	"$1==$0": "GateRoot",
-	"sdk.AccAddressFromBech32($0.Root).Equals(sdk.AccAddressFromBech32($1.Sender))": "GateRoot", // (sudoers, msg)
-	"sdk.AccAddressFromBech32($1.Sender).Equals(sdk.AccAddressFromBech32($0.Root))": "GateRoot",
-	"set.New($r.Sudoers.Get($1).Contracts...).Has($0.String())||$0.String()==$r.Sudoers.Get($1).Root": "GateSudoers",
+	"sdk.AccAddressFromBech32($0.Root).Equals(sdk.AccAddressFromBech32($1.Sender))":          "GateRoot", // (sudoers, msg)
+	"sdk.AccAddressFromBech32($1.Sender).Equals(sdk.AccAddressFromBech32($0.Root))":          "GateRoot",
+	"member($r.Sudoers.Get($1).Contracts,$0.String())||$0.String()==$r.Sudoers.Get($1).Root": "GateSudoers",
+}
+
+// closeParen returns the index of the parenthesis closing the one opened just before s[i].
+func closeParen(s string, i int) int {
+	d := 1
+	for ; i < len(s); i++ {
+		switch s[i] {
+		case '(':
+			d++
+		case ')':
+			d--
+			if d == 0 {
+				return i
+			}
+		}
+	}
+	return -1
+}
+
+// canonMember writes the two spellings of "y is an element of the list X" the same way:
+// set.New(X...).Has(y) and slices.Contains(X, y) both become member(X,y).  (A binary search or any
+// other lookup stays what it is.)
+func canonMember(c string) string {
+	for {
+		i := strings.Index(c, "set.New(")
+		if i < 0 {
+			break
+		}
+		j := closeParen(c, i+len("set.New("))
+		if j < 0 || !strings.HasSuffix(c[:j], "...") || !strings.HasPrefix(c[j:], ").Has(") {
+			break
+		}
+		k := closeParen(c, j+len(").Has("))
+		if k < 0 {
+			break
+		}
+		c = c[:i] + "member(" + c[i+len("set.New("):j-3] + "," + c[j+len(").Has("):k] + ")" + c[k+1:]
+	}
+	for {
+		i := strings.Index(c, "slices.Contains(")
+		if i < 0 {
+			break
+		}
+		a := i + len("slices.Contains(")
+		k := closeParen(c, a)
+		if k < 0 {
+			break
+		}
+		d, comma := 0, -1
+		for x := a; x < k; x++ {
+			switch c[x] {
+			case '(':
+				d++
+			case ')':
+				d--
+			case ',':
+				if d == 0 && comma < 0 {
+					comma = x
+				}
+			}
+		}
+		if comma < 0 {
+			break
+		}
+		c = c[:i] + "member(" + c[a:comma] + "," + c[comma+1:k] + ")" + c[k+1:]
+	}
+	return c
 }
 
 // calls that write state (collections / bank keeper), as selector names
@@ -169,7 +240,10 @@ func main() {
 	})
 	sort.Strings(dirs)
 
-	type site struct{ module, fn, gate string; first bool }
+	type site struct {
+		module, fn, gate string
+		first            bool
+	}
 	type hnd struct{ module, name, gate string }
 	var sites []site
 	var handlers []hnd
@@ -204,7 +278,7 @@ func main() {
 				if fd.Type.Results == nil || len(fd.Type.Results.List) != 1 || Nospace(fd.Type.Results.List[0].Type) != "error" {
 					continue
 				}
-				form := acceptCondition(fd)
+				form := canonMember(acceptCondition(fd))
 				kind, ok := gateForms[form]
 				if !ok {
 					continue
@@ -377,6 +451,384 @@ func main() {
 		}
 	}
 	fmt.Printf("Definition gate_functions : list string := [%s].\n", strings.Join(q, "; "))
+
+	fmt.Println("(* app/wasmext: every path from the contract-message entry point (DispatchMsg) to the Msg router lookup: *)")
+	fmt.Println("(* switch branches taken, and whether the signer-vs-dispatching-contract guard lies on the path *)")
+	fmt.Println("Definition wasm_routes : list route_path := [")
+	rps := wasmRoutes(repo)
+	for i, r := range rps {
+		sep := ";"
+		if i == len(rps)-1 {
+			sep = ""
+		}
+		fmt.Printf("  {| rp_branch := %s; rp_signer_guard := %s |}%s\n", CoqString(r.branch), CoqBool(r.guarded), sep)
+	}
+	fmt.Println("].")
+}
+
+// ---------------------------------------------------------------- paths of the wasm message handler
+
+type routePath struct {
+	branch  string
+	guarded bool
+}
+
+type pstate struct {
+	guarded bool
+	branch  string
+}
+
+type frame struct {
+	params     map[string]bool         // all parameters (the dispatched message is one of them)
+	addrParams map[string]bool         // parameters of an address type (the dispatching contract)
+	signerVars map[string]bool         // locals assigned from an expression mentioning GetSigners()
+	closures   map[string]*ast.FuncLit // locals bound to a function literal
+}
+
+type walker struct {
+	byName map[string][]*ast.FuncDecl
+	stack  map[*ast.FuncDecl]bool
+	paths  map[routePath]bool
+}
+
+func dedup(in []pstate) []pstate {
+	seen := map[pstate]bool{}
+	var out []pstate
+	for _, s := range in {
+		if !seen[s] {
+			seen[s] = true
+			out = append(out, s)
+		}
+	}
+	return out
+}
+
+func callName(c *ast.CallExpr) string {
+	switch f := c.Fun.(type) {
+	case *ast.SelectorExpr:
+		return f.Sel.Name
+	case *ast.Ident:
+		return f.Name
+	}
+	return ""
+}
+
+// mentions reports whether pred holds for some identifier / call under n, looking through locals bound
+// to function literals.
+func (fr *frame) mentions(n ast.Node, pred func(ast.Node) bool, depth int) bool {
+	if n == nil || depth > 3 {
+		return false
+	}
+	found := false
+	ast.Inspect(n, func(x ast.Node) bool {
+		if found || x == nil {
+			return false
+		}
+		if pred(x) {
+			found = true
+			return false
+		}
+		if id, ok := x.(*ast.Ident); ok {
+			if fl, ok := fr.closures[id.Name]; ok && fr.mentions(fl.Body, pred, depth+1) {
+				found = true
+				return false
+			}
+		}
+		return true
+	})
+	return found
+}
+
+func (fr *frame) mentionsSigners(n ast.Node) bool {
+	return fr.mentions(n, func(x ast.Node) bool {
+		switch y := x.(type) {
+		case *ast.CallExpr:
+			// the signers of a message the function was GIVEN (not of something derived from it)
+			if sel, ok := y.Fun.(*ast.SelectorExpr); ok && sel.Sel.Name == "GetSigners" {
+				id, ok := sel.X.(*ast.Ident)
+				return ok && fr.params[id.Name]
+			}
+		case *ast.Ident:
+			return fr.signerVars[y.Name]
+		}
+		return false
+	}, 0)
+}
+
+func (fr *frame) mentionsContract(n ast.Node) bool {
+	return fr.mentions(n, func(x ast.Node) bool {
+		id, ok := x.(*ast.Ident)
+		return ok && fr.addrParams[id.Name]
+	}, 0)
+}
+
+// errorReturn: the last result is neither nil nor a plain call that may return nil.
+func errorReturn(r *ast.ReturnStmt) bool {
+	if len(r.Results) == 0 {
+		return false
+	}
+	switch x := r.Results[len(r.Results)-1].(type) {
+	case *ast.Ident:
+		return x.Name != "nil"
+	case *ast.CallExpr:
+		n := callName(x)
+		return strings.Contains(n, "Wrap") || strings.Contains(n, "Errorf") || n == "New"
+	}
+	return false
+}
+
+func containsErrorReturn(n ast.Node) bool {
+	found := false
+	ast.Inspect(n, func(x ast.Node) bool {
+		if _, ok := x.(*ast.FuncLit); ok {
+			return false
+		}
+		if r, ok := x.(*ast.ReturnStmt); ok && errorReturn(r) {
+			found = true
+		}
+		return !found
+	})
+	return found
+}
+
+// isGuard: a statement whose HEADER (if condition / range expression) reads the signers of the message
+// the function was given, and that returns an error depending on the address of the dispatching
+// contract.  (A guard nested in some other loop or condition is not one: the walker then sees an
+// ordinary statement whose body may be skipped.)
+func (fr *frame) isGuard(header ast.Node, body *ast.BlockStmt) bool {
+	if header == nil || body == nil || !containsErrorReturn(body) {
+		return false
+	}
+	return fr.mentionsSigners(header) && (fr.mentionsContract(header) || fr.mentionsContract(body))
+}
+
+func setGuarded(in []pstate) []pstate {
+	var out []pstate
+	for _, s := range in {
+		s.guarded = true
+		out = append(out, s)
+	}
+	return dedup(out)
+}
+
+func withBranch(in []pstate, label string) []pstate {
+	var out []pstate
+	for _, s := range in {
+		if s.branch != "" {
+			s.branch += " / "
+		}
+		s.branch += label
+		out = append(out, s)
+	}
+	return out
+}
+
+// exprs scans the calls under n in source order: a router lookup records the current states as
+// paths; a call of a function of the package is inlined.
+func (w *walker) exprs(fr *frame, n ast.Node, cur []pstate, depth int) []pstate {
+	if n == nil || len(cur) == 0 {
+		return cur
+	}
+	var calls []*ast.CallExpr
+	ast.Inspect(n, func(x ast.Node) bool {
+		if _, ok := x.(*ast.FuncLit); ok {
+			return false
+		}
+		if c, ok := x.(*ast.CallExpr); ok {
+			calls = append(calls, c)
+		}
+		return true
+	})
+	sort.SliceStable(calls, func(i, j int) bool { return calls[i].End() < calls[j].End() }) // arguments first
+	for _, c := range calls {
+		name := callName(c)
+		if name == "Handler" && len(c.Args) == 1 {
+			for _, s := range cur {
+				w.paths[routePath{s.branch, s.guarded}] = true
+			}
+			continue
+		}
+		cands := w.byName[name]
+		if len(cands) != 1 || w.stack[cands[0]] || depth >= 4 {
+			continue
+		}
+		fd := cands[0]
+		w.stack[fd] = true
+		var rets []pstate
+		out := w.stmts(newFrame(fd), fd.Body.List, cur, &rets, depth+1)
+		delete(w.stack, fd)
+		cur = dedup(append(out, rets...))
+	}
+	return cur
+}
+
+func newFrame(fd *ast.FuncDecl) *frame {
+	fr := &frame{params: map[string]bool{}, addrParams: map[string]bool{}, signerVars: map[string]bool{}, closures: map[string]*ast.FuncLit{}}
+	if fd.Type.Params != nil {
+		for _, f := range fd.Type.Params.List {
+			for _, nm := range f.Names {
+				fr.params[nm.Name] = true
+				if strings.Contains(Nospace(f.Type), "Address") {
+					fr.addrParams[nm.Name] = true
+				}
+			}
+		}
+	}
+	return fr
+}
+
+func caseLabel(cc *ast.CaseClause) string {
+	if cc.List == nil {
+		return "default"
+	}
+	var ls []string
+	for _, e := range cc.List {
+		ls = append(ls, Nospace(e))
+	}
+	return "case " + strings.Join(ls, ",")
+}
+
+// stmts returns the states that fall through the end of list; states that leave through a
+// non-error return are appended to rets; states that leave through an error return are dropped.
+func (w *walker) stmts(fr *frame, list []ast.Stmt, cur []pstate, rets *[]pstate, depth int) []pstate {
+	for _, st := range list {
+		if len(cur) == 0 {
+			return nil
+		}
+		switch x := st.(type) {
+		case *ast.ReturnStmt:
+			cur = w.exprs(fr, x, cur, depth)
+			if !errorReturn(x) {
+				*rets = append(*rets, cur...)
+			}
+			return nil
+		case *ast.AssignStmt:
+			cur = w.exprs(fr, x, cur, depth)
+			for i, l := range x.Lhs {
+				id, ok := l.(*ast.Ident)
+				if !ok {
+					continue
+				}
+				var rhs ast.Expr
+				if len(x.Rhs) == len(x.Lhs) {
+					rhs = x.Rhs[i]
+				} else if len(x.Rhs) == 1 {
+					rhs = x.Rhs[0]
+				}
+				if fl, ok := rhs.(*ast.FuncLit); ok {
+					fr.closures[id.Name] = fl
+				} else if rhs != nil && fr.mentionsSigners(rhs) {
+					fr.signerVars[id.Name] = true
+				}
+			}
+		case *ast.IfStmt:
+			if x.Init != nil {
+				cur = w.stmts(fr, []ast.Stmt{x.Init}, cur, rets, depth)
+			}
+			cur = w.exprs(fr, x.Cond, cur, depth)
+			if fr.isGuard(x.Cond, x.Body) && x.Else == nil {
+				cur = setGuarded(cur)
+				continue
+			}
+			thenOut := w.stmts(fr, x.Body.List, cur, rets, depth)
+			elseOut := cur
+			if x.Else != nil {
+				elseOut = w.stmts(fr, []ast.Stmt{x.Else}, cur, rets, depth)
+			}
+			cur = dedup(append(append([]pstate{}, thenOut...), elseOut...))
+		case *ast.RangeStmt:
+			cur = w.exprs(fr, x.X, cur, depth)
+			if fr.isGuard(x.X, x.Body) {
+				cur = setGuarded(cur)
+				continue
+			}
+			bodyOut := w.stmts(fr, x.Body.List, cur, rets, depth)
+			cur = dedup(append(append([]pstate{}, cur...), bodyOut...))
+		case *ast.ForStmt:
+			if x.Init != nil {
+				cur = w.stmts(fr, []ast.Stmt{x.Init}, cur, rets, depth)
+			}
+			cur = w.exprs(fr, x.Cond, cur, depth)
+			if x.Cond != nil && fr.isGuard(x.Cond, x.Body) {
+				cur = setGuarded(cur)
+				continue
+			}
+			bodyOut := w.stmts(fr, x.Body.List, cur, rets, depth)
+			cur = dedup(append(append([]pstate{}, cur...), bodyOut...))
+		case *ast.SwitchStmt:
+			if x.Init != nil {
+				cur = w.stmts(fr, []ast.Stmt{x.Init}, cur, rets, depth)
+			}
+			cur = w.exprs(fr, x.Tag, cur, depth)
+			cur = w.clauses(fr, x.Body, cur, rets, depth)
+		case *ast.TypeSwitchStmt:
+			if x.Init != nil {
+				cur = w.stmts(fr, []ast.Stmt{x.Init}, cur, rets, depth)
+			}
+			cur = w.exprs(fr, x.Assign, cur, depth)
+			cur = w.clauses(fr, x.Body, cur, rets, depth)
+		case *ast.BlockStmt:
+			cur = w.stmts(fr, x.List, cur, rets, depth)
+		case *ast.LabeledStmt:
+			cur = w.stmts(fr, []ast.Stmt{x.Stmt}, cur, rets, depth)
+		case *ast.BranchStmt, *ast.EmptyStmt:
+		default:
+			cur = w.exprs(fr, st, cur, depth)
+		}
+	}
+	return cur
+}
+
+func (w *walker) clauses(fr *frame, body *ast.BlockStmt, cur []pstate, rets *[]pstate, depth int) []pstate {
+	var out []pstate
+	hasDefault := false
+	for _, c := range body.List {
+		cc, ok := c.(*ast.CaseClause)
+		if !ok {
+			continue
+		}
+		if cc.List == nil {
+			hasDefault = true
+		}
+		in := cur
+		for _, e := range cc.List {
+			in = w.exprs(fr, e, in, depth)
+		}
+		out = append(out, w.stmts(fr, cc.Body, withBranch(in, caseLabel(cc)), rets, depth)...)
+	}
+	if !hasDefault {
+		out = append(out, withBranch(cur, "no case")...)
+	}
+	return dedup(out)
+}
+
+func wasmRoutes(repo string) []routePath {
+	files := ParseDir(filepath.Join(repo, "app", "wasmext"))
+	w := &walker{byName: map[string][]*ast.FuncDecl{}, stack: map[*ast.FuncDecl]bool{}, paths: map[routePath]bool{}}
+	for _, fl := range files {
+		for _, dd := range fl.F.Decls {
+			if fd, ok := dd.(*ast.FuncDecl); ok && fd.Body != nil {
+				w.byName[fd.Name.Name] = append(w.byName[fd.Name.Name], fd)
+			}
+		}
+	}
+	for _, fd := range w.byName["DispatchMsg"] {
+		w.stack[fd] = true
+		var rets []pstate
+		w.stmts(newFrame(fd), fd.Body.List, []pstate{{}}, &rets, 0)
+		delete(w.stack, fd)
+	}
+	var out []routePath
+	for p := range w.paths {
+		out = append(out, p)
+	}
+	sort.Slice(out, func(i, j int) bool {
+		if out[i].branch != out[j].branch {
+			return out[i].branch < out[j].branch
+		}
+		return !out[i].guarded && out[j].guarded
+	})
+	return out
 }
 
 // ---------------------------------------------------------------- symbolic reading of a gate function
